@@ -116,7 +116,7 @@ class ExpressionTokenTranslator(AbstractTranslator):
                 operator = OperatorSubTokenTranslator.translate(operator, excel=None, context=None)
                 left = f'self._compare("{operator}", {left}, {right})'
             elif operator.__class__ is AmpersandToken:
-                left = f'(str({left})+str({right}))'
+                left = f'(self._excel_value_to_string({left})+self._excel_value_to_string({right}))'
             else:
                 operator = OperatorSubTokenTranslator.translate(operator, excel=None, context=None)
                 left = f'({left}{operator}{right})'
